@@ -35,8 +35,8 @@ def sprt(likelihood_ratio, alpha, beta, x, random_order = True):
 	index = 0
 	if random_order:
 		while (ts > A and ts < B and index < len(x)):
-			ts = likelihood_ratio(x[0:index])
 			index += 1
+			ts = likelihood_ratio(x[0:index])
 	else:
 		ts = likelihood_ratio(x)
 
